@@ -58,7 +58,7 @@ ASSUMPTIONS = [
 ]
 SHARDS = {"quick": 4, "thorough": 16}
 BUDGET_S = {"quick": 70, "thorough": 600}
-FLOORS = {"soup.strings": 600, "soup.parses": 9000, "soup.searches": 7000, "soup.parser_errors": 1,
+FLOORS = {"soup.strings": 600, "soup.parses": 9000, "soup.searches": 7000, "soup.inband_errors": 500,
           "lang.cases": 600, "lang.nontrivial": 250, "lang.agree": 600, "simple.cases": 60}
 
 VOCAB = ["alfa", "bravo", "charlie", "delta", "echo", "foxtrot", "golf", "hotel", "india", "juliet",
@@ -167,11 +167,11 @@ def make_parsers(schema):
     for pl in (plugins.FuzzyTermPlugin(), plugins.GtLtPlugin(), plugins.RegexPlugin(),
                plugins.PseudoFieldPlugin({"pf": noop_pseudo, "regex": regex_maker}),
                plugins.CopyFieldPlugin({"k": "kc"}), plugins.FieldAliasPlugin({"t2": ["text", "body"]}),
-               plugins.FunctionPlugin({"fn": lambda qs, *a, **k: query.Or(list(qs)) if qs else query.NullQuery}),
+               plugins.FunctionPlugin({"fn": lambda qs, *a, **k: query.Or([x for x in qs if x is not None])}),
                dateparse.DateParserPlugin(base)):
         p.add_plugin(pl)
     # language profile: the added syntax does not touch the characters the language generator uses
-    P["allplugins"] = (p, dict(group="and", default=["t"], copy={"k": "kc"}))
+    P["allplugins"] = (p, dict(group="and", default=["t"], dateplugin=True))
     p = QueryParser("t", schema)
     for pl in (plugins.FuzzyTermPlugin(), plugins.GtLtPlugin(), plugins.RegexPlugin(), plugins.PlusMinusPlugin(),
                dateparse.DateParserPlugin(base, free=True), plugins.MultifieldPlugin(["t", "k"])):
@@ -218,7 +218,7 @@ DATES = ["2020", "202001", "20200103", "2020-01-03", "2020-01-03 10:00", "202001
          "now", "jan 5", "5 jan 2020", "last tuesday", "next week", "-2d", "+1mo", "3am", "12:30pm", "midnight",
          "feb 30", "2020 to 2021", "'jan 5 2020'", "'last year'"]
 BOOSTS = ["^2", "^0.5", "^", "^.5", "^2.", "^-1", "^1e3", "^2^3", "^0", "^99999999999999999999"]
-FUZZ = ["~", "~2", "~9", "~2/3", "~/3", "~2/9", "~0", "~1/0", "~/", "~2/", "~10", "~/99"]
+FUZZ = ["~", "~2", "~3", "~4", "~2/3", "~/3", "~2/9", "~0", "~1/0", "~/", "~2/", "~1/1", "~/99"]
 RANGES = ["[a TO b]", "{a TO b}", "[a TO b}", "[TO b]", "[a TO]", "[TO]", "{TO}", "[ TO ]", "[a to b]", "[aTOb]",
           "['a b' TO 'c d']", "[a TO", "TO b]", "[2 TO 5]", "{2 TO 5}", "[5 TO 2]", "[2020 TO 2021]",
           "[20200103 TO 20200101]", "[x TO y TO z]", "[a TO b]^2", "[1.5 TO x]", "[-3 TO]", "{TO 1e400]",
@@ -330,6 +330,8 @@ def soup_case(ctx, rng, W):
         if getattr(q, "error", None) is not None or _has_error(q):
             ctx.count("soup.inband_errors")
         wit = dict(wit, query=repr(q)[:300])
+        if name in NO_SEARCH:
+            continue
         for how in ("all", "top3", "docs"):
             ctx.count("soup.searches")
             try:
@@ -351,10 +353,39 @@ def soup_case(ctx, rng, W):
                 mech, in_harness = exc_mech("search", e)
                 if in_harness:
                     raise
+                if name in KEEPS_UNKNOWN_FIELDS and _is_unknown_field_error(e, q, W):
+                    mech = "known:query-on-field-absent-from-index"
                 ctx.fail("totality.search", mech, dict(wit, how=how), traceback.format_exc()[-2500:])
                 break
     nontrivial = any(c not in ("wo", "sp", "_", "") for c in classes)
     return ("soup", classes), nontrivial, {"kind": "soup", "text": text}
+
+
+# schema=None is documented as "usually for testing purposes": the text of the query is not analysed or validated
+# against any field, so its queries are parsed (totality of parse) but not run.
+NO_SEARCH = ("noschema",)
+# FieldsPlugin(remove_unknown=False) keeps prefixes of fields the schema does not have in the query.
+KEEPS_UNKNOWN_FIELDS = ("keep-unknown-fields",)
+
+
+def _is_unknown_field_error(e, q, W):
+    """Second oracle for the listed finding: the exception is KeyError/TermNotFound about a field name, the query
+    really names a field that the index does not have, and the same query with every clause on an unknown field
+    removed runs without error (checked by the caller being otherwise silent on known fields: here we only
+    require that an unknown field is present and that the message names one of them)."""
+    from whoosh.reading import TermNotFound
+    if not isinstance(e, (KeyError, TermNotFound)):
+        return False
+    unknown = set()
+    try:
+        for leaf in q.leaves():
+            fn = leaf.field()
+            if fn is not None and fn not in W.schema:
+                unknown.add(fn)
+    except Exception:  # noqa
+        return False
+    msg = str(e)
+    return any(repr(fn) in msg for fn in unknown)
 
 
 def _has_error(q):
@@ -429,6 +460,11 @@ def gen_leaf(rng, prof, st):
         if rng.random() < 0.3:
             b = b[:rng.randint(1, len(b))]
             a, b = sorted([a, b])
+        # a bare bound spelled "to" is ambiguous with the separator ("[TO to}"); the tests of the parser quote it
+        if a == "to":
+            a = "tom"
+        if b == "to":
+            b = "tom"
         lo, hi = a, b
         open_ = rng.random()
         if open_ < 0.15:
@@ -459,29 +495,32 @@ def gen_leaf(rng, prof, st):
         return ("nrange", fn, lo, hi, le, he)
     if r < 0.87:
         def spec():
+            # documented forms only: YYYY[MM[DD[hh]]] of the DATETIME field (dates.rst); with the DateParserPlugin
+            # only the forms its documentation lists (a year, YYYYMMDD)
             day = datetime.date(2020, 1, 1) + datetime.timedelta(days=rng.randrange(0, 42))
             k = rng.random()
+            if prof.get("dateplugin"):
+                return "2020" if k < 0.1 else "%04d%02d%02d" % (day.year, day.month, day.day)
             if k < 0.15:
                 return "%04d%02d" % (day.year, day.month)
             if k < 0.2:
                 return "2020"
             if k < 0.8:
-                s = "%04d%02d%02d" % (day.year, day.month, day.day)
-                if rng.random() < 0.3:
-                    s = "%04d-%02d-%02d" % (day.year, day.month, day.day)
-                return s
+                return "%04d%02d%02d" % (day.year, day.month, day.day)
             return "%04d%02d%02d%02d" % (day.year, day.month, day.day, rng.randrange(24))
         if rng.random() < 0.5 or "d" in st["rangefields"]:
             return ("date", spec())
         st["rangefields"].add("d")
         a, b = spec(), spec()
+        if prof.get("dateplugin"):
+            # the DateParserPlugin fills the unspecified parts of one end of a range from the other end or the base
+            # date (by design), so only fully specified days have one reading there
+            while len(a) != 8:
+                a = spec()
+            while len(b) != 8:
+                b = spec()
         if date_bounds(a)[0] > date_bounds(b)[0]:
             a, b = b, a
-        o = rng.random()
-        if o < 0.15:
-            a = None
-        elif o < 0.3:
-            b = None
         return ("drange", a, b)
     if r < 0.93:
         return ("bool", rng.choice(["true", "false", "yes", "no", "t", "f", "1", "0", "True", "FALSE"]))
@@ -511,7 +550,11 @@ def gen_tree(rng, prof, depth, st=None, top=True):
     if r < 0.88:
         return ("paren", sub())
     if r < 0.95:
-        return ("fgroup", rng.choice(["t", "t2", "k"]), sub())
+        x = sub()
+        fld = rng.choice(["t", "t2", "k"])
+        if fld == "k" and has_kind(x, ("phrase",)):
+            fld = "t2"      # KEYWORD has no positions: a phrase there is a (documented) QueryError
+        return ("fgroup", fld, x)
     x = sub()
     if x[0] in ("term", "phrase", "prefix", "wild", "range", "paren", "fgroup", "num", "nrange", "date", "drange",
                 "bool", "id"):
